@@ -57,7 +57,7 @@ def _pipeline(plan, wgroup):
 ALLB = ("scene", "photon", "charge", "pixel", "signal", "image")
 
 
-def _prefill(det, nd):
+def _prefill_buckets(det):
     import verif_probes_c02 as pc
 
     geo = det.geometry
@@ -72,6 +72,10 @@ def _prefill(det, nd):
     det.signal.array = np.full(shape, 94.0)
     det.image.array = np.full(shape, 95, dtype=np.uint16)
     pc.add_scene_source(det)
+
+
+def _prefill(det, nd):
+    _prefill_buckets(det)
     # a stale clock from "another run"
     det.set_readout(times=[7.0, 8.0, 16.0], start_time=3.0, non_destructive=not nd)
     det.readout_properties.time = 8.0
@@ -114,32 +118,104 @@ def _history(det, kind, nd, rows, cols):
     raise ValueError(kind)
 
 
-def _exc(stage, ex, executed, d0=None):
-    return dict(stage=stage, executed=int(executed), exc=type(ex).__name__, msg=str(ex)[:160], d0=d0)
+TAMPER_RP = ("start_time", "time", "time_step", "pipeline_count", "read_out")
 
 
-def handle(p):
+def _tamper(det, ops):
+    """What a caller may do to the detector between two runs, through public attributes only."""
+    for target, val in ops or []:
+        if target == "junk":
+            _prefill_buckets(det)
+            continue
+        if target == "set_readout":
+            det.set_readout(times=[_f(v) for v in val["times"]], start_time=_f(val["start"]),
+                            non_destructive=bool(val["nd"]))
+            continue
+        if not det.is_dynamic:          # no ReadoutProperties object yet: nothing to assign to
+            continue
+        where, attr = target.split(".")
+        if attr not in TAMPER_RP:
+            raise RuntimeError(f"unknown tamper target {target}")
+        v = int(val) if attr == "pipeline_count" else (bool(val) if attr == "read_out" else _f(val))
+        setattr(det.readout_properties if where == "rp" else det, attr, v)
+
+
+def _run_entry(det, pipe, ro, entry):
+    import pyxel
+    from harness import pyx
+
+    if entry in (None, "run_mode"):
+        pyx.run_exposure(det, pipe, ro)
+    elif entry == "run_exposure":
+        from pyxel.exposure import Exposure
+        from pyxel.pipelines import Processor
+
+        Exposure(readout=ro).run_exposure(processor=Processor(detector=det, pipeline=pipe), debug=False,
+                                          with_inherited_coords=True)
+    elif entry == "deprecated_loop":
+        # the loop behind the deprecated pyxel.exposure_mode (its own copy of set_readout / empty / clock stores)
+        import warnings
+
+        from pyxel.exposure.exposure import _run_exposure_pipeline_deprecated
+        from pyxel.pipelines import Processor
+
+        with warnings.catch_warnings():
+            warnings.simplefilter("ignore")
+            _run_exposure_pipeline_deprecated(processor=Processor(detector=det, pipeline=pipe), readout=ro)
+    elif entry in ("observation", "observation_dask"):
+        raise RuntimeError("observation entries are run by _run_observation")
+    else:
+        raise RuntimeError(f"unknown entry {entry}")
+
+
+def _run_observation(det, pipe, ro, p):
+    """pyxel.run_mode(Observation) sweeping a detector attribute (each run = the same readout on a deep copy of
+    the detector) or `observation.readout.times` (each run = readout.replace(times=<value>))."""
+    import dask
+    import pyxel
+    from pyxel.observation import Observation, ParameterValues
+
+    sw = p["sweep"]
+    key = {"temperature": "detector.environment.temperature", "times": "observation.readout.times"}[sw["key"]]
+    vals = [float(v) if sw["key"] == "temperature" else _f(v) for v in sw["values"]]
+    obs = Observation(parameters=[ParameterValues(key=key, values=vals)], readout=ro, mode=sw.get("mode", "product"),
+                      with_dask=(p["entry"] == "observation_dask"))
+    with dask.config.set(scheduler=sw.get("scheduler", "synchronous")):
+        dt = pyxel.run_mode(obs, det, pipe, with_inherited_coords=True)
+        if p["entry"] == "observation_dask":
+            dt.compute()
+
+
+def _one_run(det, p, ro_prev):
+    """One run of a session on [det]. Returns (result, the Readout object it used, or the stage (0 / 1) at
+    which obtaining it failed)."""
     import verif_probes as vp
     import verif_probes_c02 as pc
-    from harness import pyx
     from pyxel.exposure import Readout
 
-    rows, cols = p.get("rows", 2), p.get("cols", 3)
     nd = bool(p["nd"])
-    det = pyx.make_detector(kind=p.get("detector", "ccd"), rows=rows, cols=cols)
-    vp.reset()
-    pc.reset()
-    _history(det, p.get("history", "fresh"), nd, rows, cols)
+    _tamper(det, p.get("tamper"))
     d0 = pc.buckets(det)
+    rp0 = pc.rp_public(det)
     vp.reset()
     pc.reset()
 
-    # --- constructor
-    try:
-        kw = _times_arg(p["form"], p.get("times", []), p.get("expr"))
-        ro = Readout(start_time=_f(p["start"]), non_destructive=nd, **kw)
-    except Exception as ex:  # noqa: BLE001
-        return _exc(0, ex, pc.EXEC[0], d0)
+    def _exc(stage, ex, executed):
+        return dict(stage=stage, executed=int(executed), exc=type(ex).__name__, msg=str(ex)[:160], d0=d0, rp0=rp0,
+                    d1=pc.buckets(det), rp1=pc.rp_public(det))
+
+    # --- the Readout object: a new one, or the one of the previous run (further setter calls below)
+    if p.get("reuse"):
+        if isinstance(ro_prev, int) or ro_prev is None:
+            # the object this run was to re-use could not be built: the same refusal, seen again
+            return _exc(ro_prev or 0, RuntimeError("no Readout object left by the previous run"), 0), ro_prev
+        ro = ro_prev
+    else:
+        try:
+            kw = _times_arg(p["form"], p.get("times", []), p.get("expr"))
+            ro = Readout(start_time=_f(p["start"]), non_destructive=nd, **kw)
+        except Exception as ex:  # noqa: BLE001
+            return _exc(0, ex, pc.EXEC[0]), 0
     # --- the caller's operations
     try:
         for kind, arg in p.get("ops", []):
@@ -163,14 +239,42 @@ def handle(p):
     except RuntimeError:
         raise
     except Exception as ex:  # noqa: BLE001
-        return _exc(1, ex, pc.EXEC[0], d0)
+        return _exc(1, ex, pc.EXEC[0]), 1
     # --- run
     pipe = _pipeline(p.get("plan", []), p.get("wgroup", "charge_collection"))
+    is_obs = str(p.get("entry", "")).startswith("observation")
     try:
-        pyx.run_exposure(det, pipe, ro)
+        if is_obs:
+            _run_observation(det, pipe, ro, p)
+        else:
+            _run_entry(det, pipe, ro, p.get("entry"))
     except Exception as ex:  # noqa: BLE001
-        return _exc(2, ex, pc.EXEC[0], d0)
-    log = list(pc.LOG)
+        return _exc(2, ex, pc.EXEC[0]), ro
+    if is_obs:
+        # one trace per detector copy, in order of first appearance (the copies run in any order / interleaved)
+        order, by = [], {}
+        for e in pc.LOG:
+            if e["det"] not in by:
+                by[e["det"]] = []
+                order.append(e["det"])
+            by[e["det"]].append(e)
+        groups = []
+        for k in order:
+            g = _trace(by[k])
+            if "driver_error" in g:
+                return g, ro
+            g["rp_times"] = by[k][0]["rp_times"]
+            groups.append(g)
+        return dict(stage=None, executed=int(pc.EXEC[0]), d0=d0, rp0=rp0, obs=[], groups=groups), ro
+    out = _trace(list(pc.LOG))
+    if "driver_error" in out:
+        return out, ro
+    out.update(stage=None, executed=int(pc.EXEC[0]), d0=d0, rp0=rp0, d1=pc.buckets(det), rp1=pc.rp_public(det))
+    return out, ro
+
+
+def _trace(log):
+    """Pair the first/last observations of each step; canonical clocks through both public paths."""
     if len(log) % 2 != 0:
         return {"driver_error": "odd number of observations"}
     FIELDS = ("time", "time_step", "absolute_time", "pipeline_count", "is_first_readout", "is_last_readout")
@@ -198,7 +302,29 @@ def handle(p):
             differ = True
         obs.append(dict(clock=canon(a["clock"]), begin=a["buckets"], end=b["buckets"]))
         obs_rp.append(dict(clock=canon(a["clock_rp"]), begin=a["buckets"], end=b["buckets"]))
-    out = dict(stage=None, executed=int(pc.EXEC[0]), d0=d0, obs=obs)
+    out = dict(obs=obs)
     if differ:
         out["obs_rp"] = obs_rp      # the two public views of the clock disagree: both are judged
     return out
+
+
+def handle(p):
+    """p = the judged run; p["pre"] = the earlier runs made on the SAME detector object (a session).
+    With p["all_runs"] the result of every run of the session is returned ({"outs": [...]})."""
+    import verif_probes as vp
+    import verif_probes_c02 as pc
+    from harness import pyx
+
+    runs = list(p.get("pre") or []) + [p]
+    rows, cols = p.get("rows", 2), p.get("cols", 3)
+    det = pyx.make_detector(kind=p.get("detector", "ccd"), rows=rows, cols=cols)
+    vp.reset()
+    pc.reset()
+    _history(det, p.get("history", "fresh"), bool(runs[0]["nd"]), rows, cols)
+    outs, ro = [], None
+    for r in runs:
+        out, ro = _one_run(det, r, ro)
+        outs.append(out)
+        if "driver_error" in out:
+            return out
+    return {"outs": outs} if p.get("all_runs") else outs[-1]
